@@ -172,7 +172,7 @@ class Fn:
         self.kind = 'exec'
         self.has_requires = False
         self.canary_line = None
-        self.clause_labels = {}   # line -> (prop, label)
+        self.clause_labels = {}   # line -> [(prop, label), ...]
         self.ghost_lost = []      # ghost splice anchors that vanished from the real body
 
 
@@ -735,11 +735,13 @@ def index_generated(unit, text, pasted):
         f.canary_line = n
     # clause labels
     for n, ln in enumerate(lines, 1):
-        m = re.search(r'//\s*\[(C\d\d)\s+([^\]]+)\]', ln)
-        if m:
+        if '//' not in ln:
+            continue
+        ms = re.findall(r'\[(C\d\d)\s+([^\]]+)\]', ln[ln.index('//'):])
+        if ms:
             for f in fns:
                 if f.line_lo <= n <= f.line_hi:
-                    f.clause_labels[n] = (m.group(1), m.group(2).strip())
+                    f.clause_labels[n] = [(p, l.strip()) for (p, l) in ms]
     return fns
 
 
